@@ -97,7 +97,7 @@ def strategy(tier):
 
 
 def budget(tier):
-    return 3000 if tier == "quick" else 50000
+    return 3000 if tier == "quick" else 500000
 
 
 def classify(case):
